@@ -168,7 +168,11 @@ static inline int level_of_pos(int i) { int l = 0; for (int k = 0; k < SS_NL; k+
 // Symbolic trail, levels, clause DB, reasons + the representation invariant.  min_level: smallest decision level allowed.
 static void build_state(int min_level) {
     // trail: g_n literals over distinct variables
+#ifdef SS_SHAPE_LIMS
+    g_n = SS_NV;                          // fixed trail shape (scenario family): all variables assigned, fixed level boundaries
+#else
     g_n = nondet_u8(); VASSUME(g_n >= 0 && g_n <= SS_NV);
+#endif
     for (int v = 0; v < SS_NV; v++) { g_pos[v] = -1; g_val[v] = 2; g_lev[v] = 0; }
     for (int i = 0; i < SS_NV; i++) {
 #if SS_CANON
@@ -180,9 +184,18 @@ static void build_state(int min_level) {
         if (i < g_n) { int v = lvar(l); VASSUME(g_pos[v] == -1); g_pos[v] = i; g_val[v] = (uint8_t)(l & 1); }   // every trail literal is true
     }
     // decision levels: trail_lim non-decreasing (empty "dummy" levels exist for already-true assumptions), <= trail size
+#ifdef SS_SHAPE_LIMS
+    static const int shape_lims[SS_NL] = {SS_SHAPE_LIMS};
+    g_nl = SS_NL;
+#else
     g_nl = nondet_u8(); VASSUME(g_nl >= min_level && g_nl <= SS_NL);
+#endif
     for (int k = 0; k < SS_NL; k++) {
+#ifdef SS_SHAPE_LIMS
+        g_lim[k] = shape_lims[k];
+#else
         g_lim[k] = nondet_u8();
+#endif
         VASSUME(g_lim[k] >= 0 && g_lim[k] <= g_n);
         if (k > 0 && k < g_nl) VASSUME(g_lim[k - 1] <= g_lim[k]);
     }
@@ -202,14 +215,15 @@ static void build_state(int min_level) {
     for (int i = 0; i < SS_NV; i++) {
         int v = lvar(g_trail[i]);
         if (i >= g_n) continue;
-        int kind = nondet_u8(); VASSUME(kind >= 0 && kind <= K_CLAUSE);
+        int lev = g_lev[v];
+        bool first_of_level = false;
+        for (int k = 0; k < SS_NL; k++) if (k < g_nl && g_lim[k] == i && k + 1 == lev) first_of_level = true;
+        int kind = K_UNDEF;
+        if (!(lev >= 1 && first_of_level)) { kind = nondet_u8(); VASSUME(kind >= 0 && kind <= K_CLAUSE); }
         g_kind[v] = kind;
 #ifdef SS_NO_THEORY
         VASSUME(kind != K_FAKE);   // case split: no theory-propagated literal on the trail
 #endif
-        int lev = g_lev[v];
-        bool first_of_level = false;
-        for (int k = 0; k < SS_NL; k++) if (k < g_nl && g_lim[k] == i && k + 1 == lev) first_of_level = true;
         if (lev >= 1) {
             // the first literal of a non-empty level is its decision/assumption (no reason); every other literal is implied
             if (first_of_level) VASSUME(kind == K_UNDEF); else VASSUME(kind != K_UNDEF);
